@@ -135,7 +135,7 @@ PROPS["C13"] = {
                  "C13_same_text_same_chaos_across_inputs", "C13_unicode_forms_same_chaos", "C13_chaos_function_pipeline",
                  "C13_any_modelled_encoding_same_chaos"],
     "model_targets": ["Model/Md32.vo"],
-    "runs": [detect_run("C13", 260, 4000)],
+    "runs": [detect_run("C13", 260, 4000, bigq=1, bigt=4)],
     "search": detect_search("C13"),
     "rule": DETECT_RULE + "; focus C13: every case that fits its window is re-run with (1, len) and another random covering pair; "
             "and >= 60 texts are encoded into every supported encoding that round-trips them (with / without BOM), probed alone with "
@@ -191,7 +191,7 @@ PROPS["C08"] = {
 PROPS["C09"] = {
     "module": "PropC09",
     "theorems": ["C09_restricted_verdict_agrees", "C09_restricted_run", "C09_probe_ignores_filters", "C09_missing_is_explained"],
-    "runs": [detect_run("C09", 600, 6000, maxq=4000, maxt=20000)],
+    "runs": [detect_run("C09", 600, 6000, maxq=4000, maxt=20000, midq=1, midt=4)],
     "search": {"level": "detect", "args": ["--focus", "C09", "--n", "800", "--max-len", "5000"]},
     "timeout": 1700,
     "rule": DETECT_RULE + "; focus C09: for every case every reported encoding is re-run alone (same settings, include=[E]) and "
@@ -225,7 +225,7 @@ PROPS["C10"] = {
     "module": "PropC10",
     "theorems": ["C10_partition", "C10_lookup", "C10_languages", "C10_most_probable_language", "C10_unicode_ranges", "C10_partition_binary32",
                  "C10_single_byte_languages_never_empty"],
-    "runs": [detect_run("C10", 300, 5000), {"level": "container", "args_quick": ["--n", "200"], "args_thorough": ["--n", "5000"]}],
+    "runs": [detect_run("C10", 300, 5000, midq=1, midt=4), {"level": "container", "args_quick": ["--n", "200"], "args_thorough": ["--n", "5000"]}],
     "search": detect_search("C10"),
     "rule": DETECT_RULE + "; every result is checked for: no encoding twice, alternatives share text and chaos with their match, distinct "
             "matches differ in text or chaos, languages without repeats and within the tied language, most probable language by the "
